@@ -1,60 +1,226 @@
 (** C29 — proofs, part 2: the write log of a whole delivery history (fresh
     database, flag writes, genesis, deliveries decided by the C25 fork-choice
-    model); a concrete reorganisation history; and why the single batch is
-    needed. *)
+    model): every block an operation mentions is the genesis block or a
+    delivered block, so the theorems of part 1 apply to every history; a
+    concrete reorganisation history; and why the single batch is needed. *)
 From Coq Require Import List ZArith NArith Bool Lia.
 From C33 Require Import C25.Model C29.Model C29.Proofs.
 Import ListNotations.
 Open Scope Z_scope.
 
-(** the flag writes do not touch any chain record *)
-Lemma inv_flags : forall sid k, inv sid (mkP (replay d0 (firstn k (fresh_units d0))) []).
+(** * the blocks of the fork-choice state come from the delivered blocks *)
+
+Section Blocks.
+Variable U : list block.
+
+Definition bl (s : state) : Prop :=
+  (forall n, In n (idx s) -> In (nblk n) U) /\ (forall c, In c (orph s) -> In c U).
+
+Lemma find_blk_in : forall ix h b, (forall n, In n ix -> In (nblk n) U) -> find_blk ix h = Some b -> In b U.
 Proof.
-  intros sid k. destruct k as [|[|[|k]]]; (constructor; cbn; [left; reflexivity|exact I|reflexivity|reflexivity|constructor]).
+  intros ix h b H F. unfold find_blk in F. destruct (find_node h ix) as [n|] eqn:E; [|discriminate].
+  inversion F; subst. apply H. unfold find_node in E. apply find_some in E as [Hn _]. exact Hn.
 Qed.
 
-Lemma fresh_units_d0 : fresh_units d0 = [[FFlag 1%N]; [FFlag 2%N]].
-Proof. reflexivity. Qed.
-
-(** Every crash point of every delivery history whose operation sequence is
-    valid: the durable state describes exactly the chain after some prefix of
-    the operations, and start-up recovers that chain. *)
-Theorem history_crash_consistent : forall sid fin g order k,
-  ops_valid [] (history_ops fin g order) = true ->
-  exists j, (j <= length (history_ops fin g order))%nat /\
-    consistent_with sid (replay d0 (firstn k (history_log sid fin g order)))
-                    (chain_run [] (firstn j (history_ops fin g order))).
+Lemma connect_best_shape : forall fin s b td,
+  let s' := fst (fst (connect_best fin s b td)) in idx s' = idx s /\ orph s' = orph s.
 Proof.
-  intros sid fin g order k V. unfold history_log.
-  set (fl := fresh_units d0). set (ops := history_ops fin g order) in *.
+  intros fin s b td. unfold connect_best.
+  destruct (N.eqb (bpar b) (tip s)); [cbn; auto|].
+  destruct (find_node (tip s) (idx s)) as [t|]; [|cbn; auto].
+  destruct ((td <=? ntd t) || (bht b <? fin + margin)); [cbn; auto|].
+  destruct (branch (S (Z.to_nat (bht b))) (idx s) (main s) (bid b)) as [[p fk]|]; cbn; auto.
+Qed.
+
+Lemma accept_bl : forall fin s b, bl s -> In b U -> bl (fst (fst (accept fin s b))).
+Proof.
+  intros fin s b [Hi Ho] Hb. unfold accept.
+  destruct (find_node (bpar b) (idx s)) as [p|]; [|split; assumption].
+  destruct (negb (bht b =? bht (nblk p) + 1)); [split; assumption|].
+  match goal with |- bl (fst (fst (connect_best fin ?s1 b ?td))) =>
+    destruct (connect_best_shape fin s1 b td) as [E1 E2] end.
+  cbn [idx orph] in E1, E2. split.
+  - intros n Hn. rewrite E1 in Hn. destruct Hn as [<-|Hn]; [exact Hb|apply Hi; exact Hn].
+  - intros c Hc. rewrite E2 in Hc. apply Ho. exact Hc.
+Qed.
+
+Lemma bl_orph : forall s o, bl s -> (forall c, In c o -> In c U) -> bl (mkS (idx s) o (main s) (evs s)).
+Proof. intros s o [Hi _] Ho. split; assumption. Qed.
+
+Lemma remove_orph_sub : forall h o c, In c (remove_orph h o) -> In c o.
+Proof. intros h o c H. unfold remove_orph in H. apply filter_In in H as [H _]. exact H. Qed.
+
+Lemma first_child_in : forall p o c, first_child p o = Some c -> In c o.
+Proof. intros p o c H. unfold first_child in H. apply find_some in H as [H _]. exact H. Qed.
+
+Lemma porph_bl : forall fuel fin q s, bl s -> bl (fst (porph fuel fin q s)).
+Proof.
+  induction fuel as [|f IH]; intros fin q s B; [exact B|].
+  cbn [porph]. destruct q as [|p q']; [exact B|].
+  destruct (first_child p (orph s)) as [c|] eqn:FC; [|apply IH; exact B].
+  pose proof (first_child_in _ _ _ FC) as Hc.
+  set (s0 := mkS (idx s) (remove_orph (bid c) (orph s)) (main s) (evs s)).
+  assert (B0 : bl s0).
+  { apply bl_orph; [exact B|]. intros x Hx. apply (proj2 B). eapply remove_orph_sub. exact Hx. }
+  pose proof (accept_bl fin s0 c B0 (proj2 B c Hc)) as B1.
+  destruct (accept fin s0 c) as [[s1 m1] e1]. cbn [fst] in B1.
+  destruct e1; try exact B1. apply IH. exact B1.
+Qed.
+
+Lemma step_bl : forall fin s b, bl s -> In b U -> bl (step fin s b).
+Proof.
+  intros fin s b B Hb. unfold step, deliver.
+  destruct (in_idx (bid b) (idx s)); [exact B|].
+  destruct (in_orph (bid b) (orph s) && negb (in_idx (bpar b) (idx s))); [exact B|].
+  set (s1 := if in_orph (bid b) (orph s) then _ else s).
+  assert (B1 : bl s1).
+  { subst s1. destruct (in_orph (bid b) (orph s)); [|exact B].
+    apply bl_orph; [exact B|]. intros x Hx. apply (proj2 B). eapply remove_orph_sub. exact Hx. }
+  clearbody s1.
+  destruct (negb (in_idx (bpar b) (idx s1))).
+  - cbn [fst]. apply bl_orph; [exact B1|]. intros x Hx.
+    apply in_app_or in Hx as [Hx|[<-|[]]]; [apply (proj2 B1); exact Hx|exact Hb].
+  - pose proof (accept_bl fin s1 b B1 Hb) as B2.
+    destruct (accept fin s1 b) as [[s2 m2] e2]. cbn [fst] in B2.
+    destruct e2; try exact B2.
+    pose proof (porph_bl (porph_fuel s2) fin [bid b] s2 B2) as B3.
+    destruct (porph (porph_fuel s2) fin [bid b] s2) as [s3 e3]. cbn [fst] in B3.
+    destruct e3; exact B3.
+Qed.
+
+(** ** the operations *)
+
+Definition all_in (ops : list op) : Prop := forall o, In o ops -> In (op_block o) U.
+
+Lemma all_in_app : forall a b, all_in a -> all_in b -> all_in (a ++ b).
+Proof. intros a b Ha Hb o Ho. apply in_app_or in Ho as [Ho|Ho]; auto. Qed.
+
+Lemma ev_ops_in : forall ix evl, (forall n, In n ix -> In (nblk n) U) -> all_in (flat_map (ev_op ix) evl).
+Proof.
+  intros ix evl H o Ho. apply in_flat_map in Ho as (e & _ & He).
+  unfold ev_op in He. destruct (find_blk ix (fst e)) as [b|] eqn:F; [|destruct He].
+  destruct He as [<-|[]]. pose proof (find_blk_in ix _ _ H F). destruct (snd e); exact H0.
+Qed.
+
+Lemma accept_ops_in : forall fin s b, bl s -> In b U -> all_in (accept_ops fin s b).
+Proof.
+  intros fin s b B Hb. unfold accept_ops.
+  destruct (find_node (bpar b) (idx s)) as [p|]; [|intros o []].
+  destruct (negb (bht b =? bht (nblk p) + 1)); [intros o []|].
+  intros o [<-|Ho]; [exact Hb|].
+  revert o Ho. apply ev_ops_in. exact (proj1 (accept_bl fin s b B Hb)).
+Qed.
+
+Lemma porph_ops_in : forall fuel fin q s, bl s -> all_in (porph_ops fuel fin q s).
+Proof.
+  induction fuel as [|f IH]; intros fin q s B; [intros o []|].
+  cbn [porph_ops]. destruct q as [|p q']; [intros o []|].
+  destruct (first_child p (orph s)) as [c|] eqn:FC; [|apply IH; exact B].
+  pose proof (first_child_in _ _ _ FC) as Hc.
+  set (s0 := mkS (idx s) (remove_orph (bid c) (orph s)) (main s) (evs s)).
+  assert (B0 : bl s0).
+  { apply bl_orph; [exact B|]. intros x Hx. apply (proj2 B). eapply remove_orph_sub. exact Hx. }
+  apply all_in_app; [apply accept_ops_in; [exact B0|exact (proj2 B c Hc)]|].
+  pose proof (accept_bl fin s0 c B0 (proj2 B c Hc)) as B1.
+  destruct (accept fin s0 c) as [[s1 m1] e1]. cbn [fst] in B1.
+  destruct e1; try (intros o []). apply IH. exact B1.
+Qed.
+
+Lemma deliver_ops_in : forall fin s b, bl s -> In b U -> all_in (deliver_ops fin s b).
+Proof.
+  intros fin s b B Hb. unfold deliver_ops.
+  destruct (in_idx (bid b) (idx s)); [intros o []|].
+  destruct (in_orph (bid b) (orph s) && negb (in_idx (bpar b) (idx s))); [intros o []|].
+  set (s1 := if in_orph (bid b) (orph s) then _ else s).
+  assert (B1 : bl s1).
+  { subst s1. destruct (in_orph (bid b) (orph s)); [|exact B].
+    apply bl_orph; [exact B|]. intros x Hx. apply (proj2 B). eapply remove_orph_sub. exact Hx. }
+  clearbody s1.
+  destruct (negb (in_idx (bpar b) (idx s1))); [intros o []|].
+  apply all_in_app; [apply accept_ops_in; assumption|].
+  pose proof (accept_bl fin s1 b B1 Hb) as B2.
+  destruct (accept fin s1 b) as [[s2 m2] e2]. cbn [fst] in B2.
+  destruct e2; try (intros o []). apply porph_ops_in. exact B2.
+Qed.
+
+Lemma order_ops_in : forall fin order s, bl s -> (forall b, In b order -> In b U) -> all_in (order_ops fin s order).
+Proof.
+  induction order as [|b r IH]; intros s B H; [intros o []|].
+  cbn [order_ops]. apply all_in_app.
+  - apply deliver_ops_in; [exact B|]. apply H. left. reflexivity.
+  - apply IH; [apply step_bl; [exact B|apply H; left; reflexivity]|].
+    intros x Hx. apply H. right. exact Hx.
+Qed.
+
+End Blocks.
+
+Lemma history_ops_in : forall fin g order, all_in (g :: order) (history_ops fin g order).
+Proof.
+  intros fin g order. unfold history_ops. apply all_in_app.
+  - intros o [<-|[<-|[]]]; left; reflexivity.
+  - apply order_ops_in.
+    + split; [|intros c []]. intros n [<-|[]]. left. reflexivity.
+    + intros b Hb. right. exact Hb.
+Qed.
+
+(** * whole histories *)
+
+(** the flag writes do not touch any chain record *)
+Lemma inv_flags : forall sid U k, inv sid U (mkP (replay d0 (firstn k (fresh_units d0))) []).
+Proof.
+  intros sid U k.
+  destruct k as [|[|[|k]]];
+    (constructor; cbn; [left; reflexivity|exact I|reflexivity|reflexivity|constructor|intros x []]).
+Qed.
+
+Definition hash_identifies (U : list block) : Prop :=
+  forall x y, In x U -> In y U -> bid x = bid y -> x = y.
+
+(** Every crash point of every delivery history: the durable state describes
+    exactly the chain the node had after some prefix of its operations, and
+    start-up recovers that chain. *)
+Theorem history_crash_consistent : forall sid fin g order k,
+  hash_identifies (g :: order) ->
+  let ops := history_ops fin g order in
+  let s0 := mkP (replay d0 (fresh_units d0)) [] in
+  exists j, (j <= length ops)%nat /\
+    consistent_with sid (g :: order) (replay d0 (firstn k (history_log sid fin g order)))
+                    (chain_after sid s0 ops j).
+Proof.
+  intros sid fin g order k HU ops s0. unfold history_log. fold ops.
+  set (fl := fresh_units d0) in *.
+  pose proof (history_ops_in fin g order) as V. fold ops in V.
   destruct (Nat.le_gt_cases k (length fl)) as [Hk|Hk].
   - (* the crash falls within the flag writes: nothing of the chain exists *)
-    exists 0%nat. split; [lia|]. cbn [firstn chain_run].
+    exists 0%nat. split; [lia|]. unfold chain_after. cbn [firstn run_ops fst p_chain s0].
     rewrite firstn_app. replace (k - length fl)%nat with 0%nat by lia.
     cbn [firstn]. rewrite app_nil_r.
-    pose proof (inv_flags sid k) as I. fold fl in I.
-    split; [exact I|]. apply (recover_inv sid _ I).
+    pose proof (inv_flags sid (g :: order) k) as I. fold fl in I.
+    split; [exact I|]. apply (recover_inv sid (g :: order) _ I).
   - rewrite firstn_app, (firstn_all2 fl) by lia. rewrite replay_app.
-    pose proof (inv_flags sid (length fl)) as I. fold fl in I. rewrite firstn_all in I.
-    exact (crash_consistent sid [] (replay d0 fl) ops (k - length fl) I V).
+    pose proof (inv_flags sid (g :: order) (length fl)) as I. fold fl in I. rewrite firstn_all in I.
+    exact (crash_consistent sid (g :: order) HU [] (replay d0 fl) ops (k - length fl) I V).
 Qed.
 
 Theorem history_resume : forall sid fin g order k,
-  ops_valid [] (history_ops fin g order) = true ->
+  hash_identifies (g :: order) ->
   (length (fresh_units d0) <= k)%nat ->
   let ops := history_ops fin g order in
+  let s0 := mkP (replay d0 (fresh_units d0)) [] in
   exists j, (j <= length ops)%nat /\
     let dk := replay d0 (firstn k (history_log sid fin g order)) in
-    let cj := chain_run [] (firstn j ops) in
+    let cj := chain_after sid s0 ops j in
+    consistent_with sid (g :: order) dk cj /\
     let send := fst (run_ops sid (mkP dk cj) (skipn j ops)) in
-    p_chain send = p_chain (fst (run_ops sid (mkP (replay d0 (fresh_units d0)) []) ops)) /\
-    consistent_with sid (p_d send) (p_chain send).
+    p_chain send = p_chain (fst (run_ops sid s0 ops)) /\
+    consistent_with sid (g :: order) (p_d send) (p_chain send).
 Proof.
-  intros sid fin g order k V Hk ops. unfold history_log.
-  set (fl := fresh_units d0) in *. fold ops.
+  intros sid fin g order k HU Hk ops s0. unfold history_log. fold ops.
+  set (fl := fresh_units d0) in *.
+  pose proof (history_ops_in fin g order) as V. fold ops in V.
   rewrite firstn_app, (firstn_all2 fl) by lia. rewrite replay_app.
-  pose proof (inv_flags sid (length fl)) as I. fold fl in I. rewrite firstn_all in I.
-  exact (resume_same_final sid [] (replay d0 fl) ops (k - length fl) I V).
+  pose proof (inv_flags sid (g :: order) (length fl)) as I. fold fl in I. rewrite firstn_all in I.
+  exact (resume_same_final sid (g :: order) HU [] (replay d0 fl) ops (k - length fl) I V).
 Qed.
 
 (** * a concrete history: trunk of 13 blocks, a branch of 3 from height 11 that
@@ -75,19 +241,29 @@ Definition ex_log : list wunit := history_log ex_sid 0 ex_g ex_order.
 
 Definition is_disc (o : op) : bool := match o with ODisc _ => true | _ => false end.
 
+Lemma example_ids : NoDup (map bid (ex_g :: ex_order)).
+Proof.
+  vm_compute. repeat (constructor; [intros H; repeat (destruct H as [H|H]; [discriminate H|]); exact H|]).
+  constructor.
+Qed.
+
+Lemma nodup_identifies : forall U, NoDup (map bid U) -> hash_identifies U.
+Proof.
+  induction U as [|a U IH]; intros ND x y Hx Hy E; [destruct Hx|].
+  cbn [map] in ND. inversion ND as [|? ? Ha ND']; subst.
+  destruct Hx as [<-|Hx], Hy as [<-|Hy].
+  - reflexivity.
+  - exfalso. apply Ha. rewrite E. apply in_map. exact Hy.
+  - exfalso. apply Ha. rewrite <- E. apply in_map. exact Hx.
+  - apply IH; assumption.
+Qed.
+
 Lemma example_valid :
-  ops_valid [] ex_ops = true /\ length (filter is_disc ex_ops) = 2%nat /\ length ex_log = 55%nat /\
+  hash_identifies (ex_g :: ex_order) /\
+  length (filter is_disc ex_ops) = 2%nat /\ length ex_log = 55%nat /\
   map bid (p_chain (fst (run_ops ex_sid (mkP (replay d0 (fresh_units d0)) []) ex_ops)))
   = [16; 15; 14; 11; 10; 9; 8; 7; 6; 5; 4; 3; 2; 1; 0]%N.
-Proof. vm_compute. repeat split. Qed.
-
-(** every crash point of the example starts up *)
-Definition starts (d : dst) : bool :=
-  match start ex_sid ex_g d with Some _ => true | None => false end.
-
-Lemma example_all_start :
-  forallb (fun k => starts (replay d0 (firstn k ex_log))) (seq 0 56) = true.
-Proof. vm_compute. reflexivity. Qed.
+Proof. split; [apply nodup_identifies, example_ids|]. vm_compute. repeat split. Qed.
 
 (** * the single batch is needed: with the last-height record written as a
     write of its own before the rest of the connect batch, a crash between the
